@@ -36,7 +36,7 @@ CIPHER_HASH == 1   HASH_CIPHER == 2
 
 \* error codes
 ERR_KEY_LEN == 2011   ERR_CIPH_MODE == 2016   ERR_HASH_ALGO == 2017   ERR_CHAIN_ORDER == 2015
-ERR_CIPH_DIR == 2045
+ERR_CIPH_DIR == 2043
 
 \* the full finite product the property quantifies over (28 x 4 x 2 x 49 x 2 = 21 952 cells)
 Modes == 1 .. 28
